@@ -64,6 +64,50 @@ def _bf_py(n, edges, src):
     return d
 
 
+def run_settle(case):
+    """Step level: the `settle` hook events (node taken off the frontier + its label) of dijkstra / astar calls"""
+    from solvor import _verif
+    from solvor.a_star import astar
+    from solvor.dijkstra import dijkstra
+    n, scale, kind = case["n"], case.get("wscale", 1), case.get("labels", "int")
+    E = [(u, v, w / scale) for u, v, w in case["edges"]]
+    if any(w < 0 for _, _, w in E):
+        return {"skipped": True}
+    labs = [_label(kind, i) for i in range(n)]
+    lab2id = {lb: i for i, lb in enumerate(labs)}
+    adj = {lb: [] for lb in labs}
+    for u, v, w in E:
+        adj[labs[u]].append((labs[v], w))
+    rev = [(v, u, w) for u, v, w in E]
+    total = sum(abs(w) for _, _, w in E) + 1.0
+    calls = []
+
+    def record(solver, src, fn):
+        _verif.start()
+        try:
+            fn()
+        except Exception:  # noqa: BLE001
+            pass
+        events, dropped = _verif.stop()
+        st = [e for e in events if e["e"] == "settle" and e["solver"] == solver]
+        if dropped or not st:
+            return
+        proj = [_proj(float(e["label"]), scale) for e in st]
+        calls.append({"solver": solver, "src": src, "settled": [[lab2id.get(e["node"], -1), p[0]] for e, p in zip(st, proj)],
+                      "exact": all(p[1] for p in proj)})
+    for q in case["queries"][:3]:
+        src, dst = q[0], q[1]
+        record("dijkstra", src, lambda: dijkstra(labs[src], labs[dst], lambda s: adj[s]))
+        record("dijkstra", src, lambda: dijkstra(labs[src], lambda s: False, lambda s: adj[s]))      # settles everything reachable
+        dg = _bf_py(n, rev, dst)
+        h = {labs[i]: (0.5 * dg[i] if dg[i] < INF else 0.5 * total) for i in range(n)}
+        record("astar", src, lambda: astar(labs[src], labs[dst], lambda s: adj[s], lambda s: h[s]))
+        record("astar", src, lambda: astar(labs[src], lambda s: False, lambda s: adj[s], lambda s: 0.0))
+    if not calls:
+        return {"skipped": True}
+    return {"n": n, "edges": [[u, v, w] for u, v, w in case["edges"]], "calls": calls, "input": case}
+
+
 def run_graph(case):
     from solvor.a_star import astar
     from solvor.bellman_ford import bellman_ford
